@@ -37,13 +37,16 @@ type c19Group struct {
 	Soft bool `json:"down_means_health_check_answers_503"`
 	// FailOverThenBack: primaries down in the last phase before the recovery, whatever the random plan says
 	FailOverThenBack bool `json:"fail_over_then_back"`
+	// Stall: the servers of this group go "down" by never answering their health check (they keep listening and
+	// would serve requests); all of them in odd phases
+	Stall bool `json:"down_means_health_check_never_answered"`
 	// ProxyTimeout of the group's location (0 = none)
 	ProxyTimeout time.Duration `json:"proxy_timeout"`
 }
 
 func c19(r *hx.Run) {
 	r.Level = "fault_enumeration"
-	r.Rule = "G upstream groups in one in-process pike (whose unchanged configuration is re-applied before odd phases) plus two groups behind the real binary (eight round-robin primaries; primary+backup with policy first; all down / all up alternately, so that more than eight transitions to sick happen), each with 1-4 servers (every primary/backup mix incl. backups only), policy from {roundRobin, first, random, leastconn, default}, health check by ping path (/ping or /) or by port; in a quarter of the groups a server goes down by answering its health check with 503 while it keeps listening. Five more groups (one per policy, primary + backup) fail over to the backup in the last phase before the recovery and must hand the traffic back. Phases: initial (all up), then random up/down vectors (all down, primaries down, one down, ...), finally all up again; servers are really stopped and restarted on the same port. After each change the driver waits until a live server of the group has seen two complete health-check rounds that began after the change (pings/connections are visible at the origins; 11.5 s when nothing is alive), then sends 12 sequential requests per group: each must be served by a healthy primary, or by a healthy backup only if no primary is healthy; roundRobin counts over healthy primaries differ by <= 1; with nothing healthy every request gets a 5xx within 2 s (also after 200 clients sent their request and went away at once); after recovery traffic resumes. Finally, with everything healthy, single requests fail for reasons that are not the server's (the client gives up on a slow request after 150 ms; a request exceeds the location's 1.5 s proxy timeout) and, for groups with backups, one slow request is held in flight on every primary: the 12 requests that follow are judged by the same rule (the servers never failed a health check). Non-trivial = settled phase with at least one server down; distinct = (policy, ping kind, backup mix, up vector)."
+	r.Rule = "G upstream groups in one in-process pike (whose unchanged configuration is re-applied before odd phases) plus two groups behind the real binary (eight round-robin primaries; primary+backup with policy first; all down / all up alternately, so that more than eight transitions to sick happen), each with 1-4 servers (every primary/backup mix incl. backups only), policy from {roundRobin, first, random, leastconn, default}, health check by ping path (/ping or /) or by port; in a quarter of the groups a server goes down by answering its health check with 503 while it keeps listening; one group of two primaries goes down by never answering its health check (the port accepts). Five more groups (one per policy, primary + backup) fail over to the backup in the last phase before the recovery and must hand the traffic back. Phases: initial (all up), then random up/down vectors (all down, primaries down, one down, ...), finally all up again; servers are really stopped and restarted on the same port. After each change the driver waits until a live server of the group has seen two complete health-check rounds that began after the change (pings/connections are visible at the origins; 11.5 s when nothing is alive), then sends 12 sequential requests per group: each must be served by a healthy primary, or by a healthy backup only if no primary is healthy; roundRobin counts over healthy primaries differ by <= 1; with nothing healthy every request gets a 5xx within 2 s (also after 200 clients sent their request and went away at once); after recovery traffic resumes. Finally, with everything healthy, single requests fail for reasons that are not the server's (the client gives up on a slow request after 150 ms; a request exceeds the location's 1.5 s proxy timeout; healthy primaries drop the connection of body-less GET/HEAD requests, which must not be handed to a backup) and, for groups with backups, one slow request is held in flight on every primary: the 12 requests that follow are judged by the same rule (the servers never failed a health check). Non-trivial = settled phase with at least one server down; distinct = (policy, ping kind, backup mix, up vector)."
 	r.Assume = []string{"the health checker's 5 s ticker has no clock seam: settling is observed, the run is wall-clock bound", "behaviour inside the unsettled window is not judged"}
 	rnd := rand.New(rand.NewSource(r.Seed))
 	nGroups := r.Pick(14, 100)
@@ -82,6 +85,9 @@ func c19(r *hx.Run) {
 		total += 2
 		groups = append(groups, gr)
 	}
+	// and one group of two primaries that go down together by stalling: their port accepts, the health request is never answered
+	groups = append(groups, &c19Group{ID: nGroups + len(policies), Policy: "roundRobin", Ping: "/ping", Backup: []bool{false, false}, Up: []bool{true, true}, Stall: true, Servers: []int{total, total + 1}})
+	total += 2
 	port := hx.FreePorts(1)[0]
 	w := newWorldCfg(r, total, false, func(origins []string) *config.PikeConfig {
 		cfg := &config.PikeConfig{Caches: []config.CacheConfig{{Name: "c19", Size: 1000, HitForPass: "5m"}}}
@@ -175,6 +181,33 @@ func c19(r *hx.Run) {
 						live = i
 					}
 				}
+				if live < 0 && g.Stall {
+					// every server must have been asked after the change; the verdict on it falls 3 s later (the
+					// library's timeout), the servers are asked one after another
+					base := make([]int64, len(g.Up))
+					for i := range g.Up {
+						base[i] = activity(g, i)
+					}
+					deadline := changedAt.Add(25 * time.Second)
+					for time.Now().Before(deadline) {
+						time.Sleep(50 * time.Millisecond)
+						asked := 0
+						for i := range g.Up {
+							if activity(g, i) != base[i] {
+								asked++
+							}
+						}
+						if asked == len(g.Up) {
+							time.Sleep(4500 * time.Millisecond)
+							return
+						}
+					}
+					r.InconclusiveCase(fmt.Sprintf("group %d: the stalled servers were not all asked for their health within 25 s", g.ID))
+					unsettledMu.Lock()
+					unsettled[g.ID] = true
+					unsettledMu.Unlock()
+					return
+				}
 				if live < 0 {
 					time.Sleep(time.Until(changedAt.Add(11500 * time.Millisecond)))
 					return
@@ -252,8 +285,13 @@ func c19(r *hx.Run) {
 			cs := map[string]interface{}{"group": g, "phase": phase, "allowed_server_positions": allowed}
 			bad := false
 			const M = 12
+			slowFirst := 0
 			for k := 0; k < M && !bad; k++ {
 				reqN++
+				if g.Stall && len(allowed) == 0 && k > 0 && k%3 == 0 {
+					// (spread over a few seconds: whatever pike might do once per second is met more than once)
+					time.Sleep(1200 * time.Millisecond)
+				}
 				// quiet connection churn on port-checked servers: the client request itself opens none to the origin directly
 				t0 := time.Now()
 				before := g.w.farm.LogLen()
@@ -269,6 +307,14 @@ func c19(r *hx.Run) {
 				r.Add("requests_in_settled_phases", 1)
 				if len(allowed) == 0 {
 					r.Add("requests_with_nothing_healthy", 1)
+					if res.Err == nil && res.Status >= 500 && dt > 2*time.Second {
+						// one slow answer may be the machine (it is asked again below); several in one series of twelve are pike's
+						if slowFirst++; slowFirst >= 2 {
+							r.Violate("no_prompt_5xx_when_nothing_healthy", map[string]string{"policy": g.Policy, "pattern": "slow_again_and_again"}, fmt.Sprintf("%d of the first %d requests of the series took more than 2 s to be refused (this one %v)", slowFirst, k+1, dt.Round(time.Millisecond)), res.Brief(), cs)
+							bad = true
+							continue
+						}
+					}
 					for retry := 0; retry < 2 && res.Err == nil && res.Status >= 500 && dt > 2*time.Second; retry++ {
 						// slow once may be the machine; slow every time is pike waiting for something
 						r.Add("slow_5xx_retried", 1)
@@ -361,6 +407,8 @@ func c19(r *hx.Run) {
 					// the real binary: everything down in odd phases, everything up in even ones
 					// (many transitions to "sick" over the process lifetime)
 					want = ph%2 == 0
+				} else if !last && g.Stall {
+					want = ph%2 == 0
 				} else if !last && g.FailOverThenBack && ph == phases-1 {
 					want = g.Backup[i] // primaries down: the backup takes over
 				} else if !last {
@@ -377,14 +425,19 @@ func c19(r *hx.Run) {
 				}
 				o := g.w.farm.Origins[g.Servers[i]]
 				if want && !g.Up[i] {
-					if g.Soft {
+					if g.Stall {
+						o.PingDelay.Store(0)
+					} else if g.Soft {
 						o.PingStatus.Store(0)
 					} else if err := o.Up(); err != nil {
 						r.InconclusiveCase("cannot restart origin: " + err.Error())
 					}
 					r.Add("servers_brought_up", 1)
 				} else if !want && g.Up[i] {
-					if g.Soft {
+					if g.Stall {
+						o.PingDelay.Store(int64(8 * time.Second))
+						r.Add("servers_stalling_their_health_check_while_listening", 1)
+					} else if g.Soft {
 						o.PingStatus.Store(503)
 						r.Add("servers_failing_their_http_health_check_while_listening", 1)
 					} else {
@@ -411,6 +464,9 @@ func c19(r *hx.Run) {
 		gate := make(chan struct{})
 		var heldN atomic.Int64
 		w.Farm.SetScript(func(f *hx.Fetch) *hx.Reply {
+			if strings.Contains(f.URI, "/drop") {
+				return &hx.Reply{Drop: true}
+			}
 			if strings.Contains(f.URI, "/slow") {
 				heldN.Add(1)
 				return &hx.Reply{Status: 200, Header: [][2]string{{"Cache-Control", "no-store"}}, Body: []byte("ok"), Gate: gate}
@@ -443,6 +499,27 @@ func c19(r *hx.Run) {
 					r.Add("slow_requests_cut_by_proxy_timeout", 1)
 				}
 				judgeGroup(g, "after_proxy_timeout")
+			}
+			// (d) healthy primaries read a body-less request and drop the connection without an answer: that request
+			// fails (or is tried again on a primary) - it is no reason to hand anything to a backup
+			if nPrim > 0 && nPrim < len(g.Up) {
+				for k := 0; k < 2*nPrim && !r.TooMany(); k++ {
+					reqN++
+					before := g.w.farm.LogLen()
+					res := g.w.cl.Do(hx.Req{Method: []string{"GET", "HEAD"}[k%2], Addr: g.w.addr, Host: "c19.example", URI: fmt.Sprintf("/g%d/drop?n=%d", g.ID, reqN), Timeout: 8 * time.Second})
+					r.Add("requests_whose_connection_a_healthy_primary_dropped", 1)
+					for _, f := range g.w.farm.LogSince(before) {
+						if !strings.HasPrefix(f.URI, fmt.Sprintf("/g%d/drop", g.ID)) {
+							continue
+						}
+						for i, oi := range g.Servers {
+							if oi == f.Server && g.Backup[i] {
+								r.Violate("backup_used_while_primary_healthy", map[string]string{"policy": g.Policy, "fault": "primary_dropped_the_connection"}, fmt.Sprintf("a request whose connection a healthy primary dropped was sent to the backup at position %d although every primary passes its health checks", i), res.Brief(), map[string]interface{}{"group": g, "phase": "primary_drops_connection"})
+							}
+						}
+					}
+				}
+				judgeGroup(g, "after_dropped_connections")
 			}
 			// (c) one request in flight on every primary, more arriving meanwhile
 			if nPrim > 0 && nPrim < len(g.Up) && g.ProxyTimeout == 0 {
